@@ -494,7 +494,7 @@ class NegotiationStream(Stream):
 
 CHECK = Check(
     prop="C17",
-    gen=[],
+    gen=["AcceptTbl"],
     modules=["WzVerif.Props.C17"],
     streams=[NegotiationStream()],
     assumptions=[
